@@ -5,7 +5,6 @@ import (
 	"fmt"
 	"io"
 	"os"
-	"strings"
 	"testing"
 	"time"
 )
@@ -268,7 +267,7 @@ func TestWorker(t *testing.T) {
 				bv := same(bestRes)
 				sb, _ := json.Marshal(best)
 				rf := ReplayFile{Engine: job.Engine, Prop: vp, Seed: seed, Violation: *bv, LogHash: bestRes.LogHash, Events: bestRes.Events, Shrunk: steps, Scenario: sb}
-				name := fmt.Sprintf("%s/%s-%s-%d-%s-%s.json", job.ReplayDir, vp, job.Engine, seed, strings.ReplaceAll(bv.Oracle, "/", "_"), strings.ReplaceAll(bv.Facts, "/", "_"))
+				name := fmt.Sprintf("%s/%s-%s-%d-%s-%s.json", job.ReplayDir, vp, job.Engine, seed, fileSafe(bv.Oracle), fileSafe(bv.Facts))
 				fb, _ := json.MarshalIndent(rf, "", " ")
 				if err := os.WriteFile(name, fb, 0o644); err == nil {
 					res.Replays = append(res.Replays, name)
@@ -277,4 +276,19 @@ func TestWorker(t *testing.T) {
 		}
 		emit(res)
 	}
+}
+
+// fileSafe keeps replay file names free of blanks and path separators.
+func fileSafe(s string) string {
+	b := []byte(s)
+	for i, c := range b {
+		ok := c >= 'a' && c <= 'z' || c >= 'A' && c <= 'Z' || c >= '0' && c <= '9' || c == '-' || c == '_' || c == '.'
+		if !ok {
+			b[i] = '_'
+		}
+	}
+	if len(b) > 120 {
+		b = b[:120]
+	}
+	return string(b)
 }
